@@ -69,10 +69,20 @@ LEVEL_NOTE += (" K jsi_point / jsi_singles_point take the raw values (jsa_raw, j
 
 def families(tier, seed):
     if tier == "quick":
-        return [("counts", seed, 200, []), ("counts", seed, 150, ["singles"]), ("counts", seed, 100, ["limit"]),
-                ("counts", seed, 2000, ["eff"])]
-    return [("counts", seed, 1500, []), ("counts", seed, 600, ["focus"]), ("counts", seed, 1500, ["singles"]),
-            ("counts", seed, 1000, ["limit"]), ("counts", seed, 50000, ["eff"])]
+        return [("counts", seed, 200, []), ("counts", seed, 20, ["mismatch"]), ("counts", seed, 150, ["singles"]),
+                ("counts", seed, 100, ["limit"]), ("counts", seed, 2000, ["eff"])]
+    return [("counts", seed, 1500, []), ("counts", seed, 200, ["mismatch"]), ("counts", seed, 600, ["focus"]),
+            ("counts", seed, 1500, ["singles"]), ("counts", seed, 1000, ["limit"]), ("counts", seed, 50000, ["eff"])]
+
+
+RULE += (" | every tenth setup of the default mode, and mode `mismatch` (20 / 200 setups): a setup whose counter_propagation FLAG "
+         "DISAGREES WITH THE BEAM DIRECTIONS, both ways - signal and idler leaving through opposite faces with the flag not set, "
+         "both photons forward with the flag set - either ASSEMBLED BY HAND through the public constructors (SPDC::new, "
+         "CrystalSetup { .. }, Beam::new(polarization, phi, theta, wavelength, waist), PeriodicPoling::new(signed period, "
+         "apodization)) or EDITED IN PLACE (crystal_setup.counter_propagation assigned on the built setup); the quantities are "
+         "those of a phase-matched configuration; through every predicate (pointwise, rates on core / wing / 2x2 grids, any-grid, "
+         "history, routes, boundary) and the K ops singles_*, counts, efficiencies, jsi(_singles)_point; `cp=` in the detail is "
+         "the geometry, `flag=` the field")
 
 
 # ------------------------------------------------------------------------------------------------------------------------------
